@@ -8,6 +8,7 @@
 #include "mxh.h"
 #include <set>
 using namespace vf; using namespace mxh;
+extern "C" int vfh_tls13_cv_sigalg(const ssl_t *, int);
 extern "C" int vfh_master_secret(const ssl_t *ssl, unsigned char *out, int max);
 
 static const std::vector<uint16_t> RSA_SUITES = { 0x002F, 0x0035, 0x003C, 0x009C, 0x009D, 0xC013, 0xC027, 0xC028, 0xC02F, 0xC030 };
@@ -120,12 +121,12 @@ static void prop(Tape &t, Ctx &c) {
         // (D) the signature algorithm in force was offered by the client (signature_algorithms) and is one the server's key can
         // produce: observed in the plaintext ServerKeyExchange of (D)TLS 1.2 ECDHE handshakes.  Identities: RSA key in an RSA-signed
         // certificate, EC key in an ECDSA-signed certificate, EC key in an RSA-signed certificate (key type != issuer's signature type).
-        int ver = t.coin() ? TLS12 : DTLS12; int ia = (int) t.below(3); int iauth = ia == 0 ? AUTH_RSA : ia == 1 ? AUTH_EC : AUTH_ECRSA;
+        int ver = (int) t.below(3); ver = ver == 0 ? TLS12 : ver == 1 ? DTLS12 : TLS13; int ia = (int) t.below(3); int iauth = ia == 0 ? AUTH_RSA : ia == 1 ? AUTH_EC : AUTH_ECRSA;
         static const std::vector<uint16_t> ALL = { 0x0201, 0x0203, 0x0401, 0x0403, 0x0501, 0x0503, 0x0601, 0x0603, 0x0804, 0x0805, 0x0806 };
         std::vector<uint16_t> offer; for (auto a : ALL) if (t.chance(1, 3)) offer.push_back(a);
         if (offer.empty()) offer.push_back(ALL[t.below(ALL.size())]);
         bool server_restricts = t.chance(1, 4); std::vector<uint16_t> senabled; if (server_restricts) { for (auto a : ALL) if (t.chance(1, 2)) senabled.push_back(a); if (senabled.empty()) server_restricts = false; }
-        uint16_t suite = iauth == AUTH_RSA ? (t.coin() ? 0xC02F : 0xC027) : (t.coin() ? 0xC02B : 0xC023);
+        uint16_t suite = iauth == AUTH_RSA ? (t.coin() ? 0xC02F : 0xC027) : (t.coin() ? 0xC02B : 0xC023); if (ver == TLS13) suite = 0x1301;
         // key-exchange group: per-session curve sets (sslSessOpts_t.ecFlags) on both sides; 0 = library default (all compiled curves)
         static const uint32_t CF[] = { IS_SECP256R1, IS_SECP384R1, IS_SECP521R1 }; static const int CID[] = { 23, 24, 25 };
         uint32_t cflags = 0, sflags = 0; bool restrict_groups = t.chance(1, 2);
@@ -148,6 +149,20 @@ static void prop(Tape &t, Ctx &c) {
         p.run(60);
         Outcome o = finish(p);
         c.count(o.c_done && o.s_done ? "D:completed" : "D:failed");
+        if (ver == TLS13) {
+            // TLS 1.3: the CertificateVerify is encrypted; the scheme is read from both endpoints' records of what they signed / verified
+            if (o.c_done || o.s_done) {
+                VF_CHECK(o.c_done && o.s_done, "one-sided-completion", "client done=%d server done=%d; %s", o.c_done, o.s_done, desc.c_str());
+                int sa = vfh_tls13_cv_sigalg(p.s.ssl, 0), ca = vfh_tls13_cv_sigalg(p.c.ssl, 1);
+                VF_CHECK(sa != 0 && sa == ca, "endpoints-disagree-on-parameters", "server signed CertificateVerify with %04x, client verified %04x; %s", sa, ca, desc.c_str());
+                c.count(fmt("D:tls13-cv-sigalg:%04x", sa));
+                VF_CHECK(std::find(offer.begin(), offer.end(), (uint16_t) sa) != offer.end(), "signature-algorithm-not-offered-by-client", "CertificateVerify signed with %04x; %s", sa, desc.c_str());
+                if (server_restricts) VF_CHECK(std::find(senabled.begin(), senabled.end(), (uint16_t) sa) != senabled.end(), "signature-algorithm-not-enabled-on-server", "CertificateVerify signed with %04x; %s", sa, desc.c_str());
+                VF_CHECK(o.data_ok, "application-data-did-not-round-trip", "%s", desc.c_str());
+            }
+            c.nontrivial(fmt("D13|%d|%zu|%d|%d", iauth, offer.size() > 4 ? 5 : offer.size(), server_restricts, o.c_done));
+            return;
+        }
         if (o.c_done || o.s_done) {
             VF_CHECK(o.c_done && o.s_done, "one-sided-completion", "client done=%d server done=%d; %s", o.c_done, o.s_done, desc.c_str());
             VF_CHECK(ske_alg >= 0, "harness-ske-not-observed", "completed ECDHE handshake without an observed ServerKeyExchange; %s", desc.c_str());
